@@ -14,17 +14,24 @@ def _function_part(txt):
 
 
 def _unsafe_if_statement(ftxt):
-    """An if-statement whose condition reads a variable assigned inside it, or whose branches assign their
-    variables in different orders / more than once."""
+    """The input class of C11-F3: an if-statement in which a condition reads a variable the if-statement
+    assigns, or a branch assigns a variable twice, or the branches assign their variables in different
+    orders AND some right-hand side reads one of these variables (sequential dependence).  Branches in
+    different orders whose right-hand sides are independent of the assigned variables are translated
+    correctly and are NOT part of the finding."""
     for m in re.finditer(r"^  if (.*?) then\n(.*?)^  end if;", ftxt, re.S | re.M):
         body = m.group(2)
         conds = [m.group(1)] + re.findall(r"^  elseif (.*?) then$", body, re.M)
         branches = re.split(r"^  (?:elseif .*? then|else)$", body, flags=re.M)
-        seqs = [re.findall(r"^\s+(\w+) :=", b, re.M) for b in branches]
+        assigns = [re.findall(r"^\s+(\w+) := (.*);$", b, re.M) for b in branches]
+        seqs = [[a[0] for a in b] for b in assigns]
         targets = set(x for s in seqs for x in s)
-        if any(re.search(r"\b%s\b" % re.escape(t), c) for t in targets for c in conds):
+        mentions = lambda txt: any(re.search(r"\b%s\b" % re.escape(t), txt) for t in targets)
+        if any(mentions(c) for c in conds):
             return True
-        if any(s != seqs[0] for s in seqs) or any(len(set(s)) != len(s) for s in seqs):
+        if any(len(set(s)) != len(s) for s in seqs):
+            return True
+        if any(s != seqs[0] for s in seqs) and any(mentions(rhs) for b in assigns for _, rhs in b):
             return True
     return False
 
